@@ -77,6 +77,20 @@ def direct_entries(ctx: Ctx, C: Contracts, targets_pre: set[str], targets_field:
                     break
         if hit:
             out.append(f)
+    # callers of name-private helpers that are entries themselves: the helper's obligations are decided in the caller's context
+    helpers = {id(g): g for g in out if g.name.startswith("__") and not g.name.endswith("__") and g.cls is not None}
+    if helpers:
+        have = {id(g) for g in out}
+        for f in ctx.M.funcs.values():
+            if id(f) in have or isinstance(f.node, ast.Lambda) or f.cls is None or "_compatibility" in f.mod.rel or (skip and skip(f)):
+                continue
+            for n in own_nodes(f.node):
+                if isinstance(n, ast.Call):
+                    tg, how = ctx.R.callees(n, f, count=False)
+                    if how == "resolved" and any(id(t) in helpers and t.cls is f.cls for t in tg):
+                        out.append(f)
+                        have.add(id(f))
+                        break
     return sorted(out, key=lambda f: f.qual)
 
 
@@ -126,6 +140,8 @@ def decide(rr: RuleResult, groups: dict[str, Group], rule_id: str, expected_unde
             rr.undecided.append(f"{key}: {w.value} (not decided: relational arithmetic or unknown operand)")
     entries_now = {k.split("=>")[0] for k in groups}
     gone = sorted({k.split("=>")[0] for k in mp} - entries_now)
+    if gone:
+        pass
     if gone:
         raise AnalysisError(f"{rule_id}: functions with must-prove obligations no longer produce any obligation (anchor moved or enumerator broken): {gone[:5]}")
 
